@@ -18,7 +18,21 @@ RULE = ("(coin, tx, input index, script code, amount) tuples x every hash-type b
         "final push (every class at least once per shard). Plus signature-bearing spends whose verified digest is tapped at Generator.verify, "
         "and BCH/BTG spends with and without the fork-id bit. Non-trivial ('hard'): hash type base is not ALL, or ANYONECANPAY, or a code "
         "separator / unparsable tail is present; distinct by (coin, algorithm, tx, idx, script, ht). Each clause of the statement has its own "
-        "required counter (legacy_algorithm.* / forkid_variant.* / bip143.* / tap.* / fork_coin_spend.*).")
+        "required counter (legacy_algorithm.* / forkid_variant.* / bip143.* / tap.* / fork_coin_spend.*). "
+        "Shard 'state': per coin, three live checkers (two of the coin, one of another coin); every kind of request the library refuses "
+        "part-way (amount / output value of 2**64, sequence / outpoint index / lock time / version of 2**32, negative / None / float / str "
+        "scalars, str / None / list script code or output script, hash type or index out of range or of another type, unknown or missing "
+        "unspent, hash type without fork id) x both entry points, each followed by judged requests on the same checker, the other checker "
+        "and the other coin's checker; a refused request must leave every field of the transaction as it was. Kept and fresh Solvers: a "
+        "sign() that fails, the field corrected, sign() again - the value handed to Generator.sign must be the consensus digest of the "
+        "input the signature ends up in. Script codes as bytearray / memoryview and transaction members as bytearray: digest of the "
+        "bytes, argument untouched, second request equal, in-place edit by the caller followed. Transactions produced by from_bin / "
+        "from_hex / parse / the unspents extension / deepcopy x checker made directly or owned by a Solver, before or after set_unspents. "
+        "Shard 'boundary': script-code lengths (as given, after separator removal, with separators), output-script lengths (one or two per "
+        "transaction, with a boundary-length script code) at 252/253/254/65534/65535/65536 for every coin; input and output counts of "
+        "65534/65535/65536 incl. SIGHASH_SINGLE at index = boundary - 1 (legacy algorithm, one of BTC/LTC/GRS per quick run). "
+        "Shard 'longrun': more than 2**16 digests of each entry point from ONE checker (BTC and two other coins in quick; 2**17 per coin "
+        "in thorough), all 256 hash types cycling, in-place edits every 2048 operations, each judged.")
 ASSUMPTIONS = [
     "reference digests in vmon/refs/sighash.py follow Bitcoin Core's SignatureHash (legacy serializer semantics incl. the SIGHASH_SINGLE "
     "'one' constant) and BIP143; self-tested on BIP143's published example and, through the reference interpreter, on every signature in "
@@ -35,6 +49,16 @@ ASSUMPTIONS = [
     "is not part of the statement)",
     "for BCH / BTG legacy-style scripts the reference (c05.ForkChecker) removes the checked signature from the script code before the fork "
     "digest, as pycoin does; the statement does not say whether that removal applies to the fork-id variants and no workload decides it",
+    "a request the library refuses (any exception) is never judged unless the statement demands the refusal; 'computing a signature hash "
+    "never modifies the transaction' is read to cover requests that end in a refusal too; after a refusal the next answers of that "
+    "checker, of other checkers and of other coins' checkers must be the consensus digests",
+    "the statement does not say which Python types a script code may have: bytearray / memoryview script codes may be refused; where they "
+    "are answered the answer must be the digest of their bytes and the object must be left as it was",
+    "a checker (made directly or owned by a Solver) answers for the transaction object as it is at the time of the request (fields edited "
+    "or unspents supplied after the checker was made)",
+    "the value handed to Generator.sign during Solver.sign / Tx.sign is the message the new signature commits to; it is matched to its "
+    "input by the signature's r value and judged against the digest for the hash-type byte found in the finished signature blob",
+    "the compact-size boundary at 2**32 (a 4 GiB script or 2**32 outputs) cannot be driven; 0xfc/0xfd and 0xffff/0x10000 are",
     "no published vector validates the BCH / BTG / GRS digests of the reference: they are the self-tested BIP143 / legacy preimages with the "
     "documented substitutions (fork id in the hash-type word, single SHA-256)",
 ]
@@ -53,6 +77,18 @@ def plan(tier, seed):
         shards.append({"kind": "tap", "n": 500 if q else 5000})
     shards.append({"kind": "suite", "label": "suite"})
     shards.append({"kind": "forkspend", "n": 250 if q else 6000, "label": "forkspend"})
+    # error-path state (refused requests interleaved with judged ones; kept Solvers) and caller-owned mutable arguments
+    for i in range(1 if q else 8):
+        shards.append({"kind": "state", "n": 10 if q else 60, "label": "state%d" % i})
+    # compact-size boundary values of every count and length that is hashed
+    for i in range(1 if q else 3):
+        shards.append({"kind": "boundary", "label": "boundary%d" % i, "count_coin": None if q else ["BTC", "LTC", "GRS"][i]})
+    # more than 2**16 digests of each entry point from ONE checker object in one process
+    if q:
+        shards.append({"kind": "longrun", "coins": None, "ops": (1 << 16) + 100, "label": "longrun", "timeout": 900})
+    else:
+        for c in COINS:
+            shards.append({"kind": "longrun", "coins": [c], "ops": (1 << 17) + 100, "label": "longrun." + c})
     return shards
 
 
@@ -66,6 +102,11 @@ def selftest(rec):
     from vmon.refs import coretext
     d = os.path.join(os.path.dirname(os.path.dirname(pycoin.__file__)), "tests", "btc", "data")
     r = {"sighash_checks": SH.selftest(), "txser": txser.selftest()}
+    # compact size as the protocol documentation gives it: < 0xfd one byte; <= 0xffff fd + 2; <= 0xffffffff fe + 4; else ff + 8
+    for v, enc in ((0, "00"), (252, "fc"), (253, "fdfd00"), (254, "fdfe00"), (515, "fd0302"), (65534, "fdfeff"), (65535, "fdffff"), (65536, "fe00000100"),
+                   (0xffffffff, "feffffffff"), (0x100000000, "ff0000000001000000")):
+        assert txser.csize(v).hex() == enc, ("csize", v)
+    r["csize_vectors"] = 10
     r.update(coretext.selftest(d))    # every signature in the Core vectors verifies under the reference digests
     return r
 
@@ -206,7 +247,8 @@ def script_traits(script):
             "unparsable_tail": not ok}
 
 
-def check_one(rec, coin, net, t, idx, script, cls, amounts, spks, hts):
+def check_one(rec, coin, net, t, idx, script, cls, amounts, spks, hts, algos=("legacy", "segwit"), big=None):
+    """big: descriptor of a generated many-input transaction (big_tx) stored in witnesses instead of the transaction itself"""
     tx = to_pycoin(net, t, amounts, spks)
     sc = tx.SolutionChecker(tx)
     before = snapshot(tx)
@@ -216,6 +258,8 @@ def check_one(rec, coin, net, t, idx, script, cls, amounts, spks, hts):
     n_refused = n_single_no_out = n_tolerated = 0
     for ht in hts:
         for algo, fn, op in (("legacy", sc._signature_hash, "_signature_hash"), ("segwit", sc._signature_for_hash_type_segwit, "_signature_for_hash_type_segwit")):
+            if algo not in algos:
+                continue
             kind, want = expected(coin, t, idx, script, amounts[idx], ht, algo)
             st, got = observe(fn, script, idx, ht)
             rec.ev(op)
@@ -243,7 +287,11 @@ def check_one(rec, coin, net, t, idx, script, cls, amounts, spks, hts):
                         mech += ".codesep_or_odd_script"
                     if len(t["ins"]) >= 253 or len(t["outs"]) >= 253:
                         mech += ".many_ins_or_outs"
+                    if cls.startswith("boundary"):
+                        mech += ".compact_size_boundary"
                 case = {"coin": coin, "algo": algo, "tx": t, "idx": idx, "script": script, "cls": cls, "amounts": amounts, "spks": spks, "ht": ht}
+                if big:
+                    case.update({"tx": None, "amounts": None, "spks": None, "big": big})
                 rec.violation(mech, case, bad[1], bad[2])
     # which clauses of the statement these comparisons reached
     fam = "legacy_algorithm" if legacy_coin else "forkid_variant"
@@ -266,8 +314,11 @@ def check_one(rec, coin, net, t, idx, script, cls, amounts, spks, hts):
     rec.ev("purity_checks")
     if after != before:
         which = [n for n, (a, b) in zip(("as_bin", "version", "lock_time", "txs_in", "txs_out", "unspents"), zip(before, after)) if a != b]
-        rec.violation("sighash.modifies_tx." + "+".join(which), {"coin": coin, "tx": t, "idx": idx, "script": script, "amounts": amounts, "spks": spks,
-                                                                  "cls": cls, "ht": "all"}, which, "unchanged")
+        case = {"coin": coin, "tx": t, "idx": idx, "script": script, "amounts": amounts, "spks": spks, "cls": cls, "ht": "all"}
+        if big:
+            case.update({"tx": None, "amounts": None, "spks": None, "big": big, "ht": list(hts), "algos": list(algos)})
+        rec.violation("sighash.modifies_tx." + "+".join(which), case, which, "unchanged")
+    return n_cmp
 
 
 def checker_history(rec, rng, coin, net, t, amounts, spks):
@@ -527,7 +578,671 @@ def run_fork_spends(spec, rec):
                 rec.violation("%s.spend.%s" % (coin.lower(), why), case, got, ref)
 
 
+# ---------------------------------------------------------------------------------------------------------------------
+# compact-size boundaries (class D): every count and length that a digest serialises, at 252/253/254 and 65534/65535/65536
+
+CS_BOUNDS = [252, 253, 254, 65534, 65535, 65536]
+BIG_COUNTS = [65534, 65535, 65536]
+
+
+def sized_script(rng, n, codeseps=0):
+    """a script code of exactly n bytes made of a handful of opcodes (key, OP_CHECKSIG, large pushes of random data) with
+    `codeseps` OP_CODESEPARATOR opcodes among them; few opcodes keep pycoin's opcode walk cheap"""
+    head = b"\x21\x02" + rng.randbytes(32) + b"\xac"
+    r = n - len(head) - codeseps
+    body = []
+    while r > 0:
+        if r <= 2:
+            body.append(b"\x61" * r)
+            r = 0
+        elif r <= 0x4c:
+            body.append(bytes([r - 1]) + rng.randbytes(r - 1))
+            r = 0
+        elif r <= 0x101:
+            body.append(b"\x4c" + bytes([r - 2]) + rng.randbytes(r - 2))
+            r = 0
+        else:
+            d = min(r - 3, 0xffff)
+            body.append(b"\x4d" + d.to_bytes(2, "little") + rng.randbytes(d))
+            r -= d + 3
+    seps = [b"\xab"] * codeseps
+    parts = [head] + seps[:1] + body + seps[1:]
+    return b"".join(parts)
+
+
+def big_tx(desc):
+    """deterministic transaction with desc['n_in'] inputs and desc['n_out'] outputs (a formula of the position and a salt)"""
+    salt = desc["salt"]
+    base = hashlib.sha256(b"c04-big-%d" % salt).digest()
+    ins = [{"prev": base[:28] + i.to_bytes(4, "little"), "index": (i * 7 + salt) & 3, "script": b"", "sequence": 0xffffffff - ((i + salt) % 3), "witness": []}
+           for i in range(desc["n_in"])]
+    outs = [{"value": 1000 + j, "script": b"\x51" if (j + salt) & 1 else b"\x6a\x01" + bytes([j & 0xff])} for j in range(desc["n_out"])]
+    return {"version": 1 + (salt & 1), "ins": ins, "outs": outs, "lock_time": salt & 0xffff}
+
+
+def hashed_script_len(coin, algo, script):
+    """length of the script code as the digest serialises it"""
+    if algo == "legacy" and coin not in FORK_COINS:
+        return len(SH.strip_codeseparators(script))
+    return len(script)
+
+
+BOUNDARY_HASH_TYPES = [1, 2, 3, 0x41, 0x43, 0x81, 0x83, 0xc1, 0xc2, 0xc3]
+
+
+def run_boundary(spec, rec):
+    rng = shard_rng(spec["seed"], PROPERTY, spec["tier"], spec["shard"])
+    q = spec["tier"] == "quick"
+    rec.require(*["boundary.script_code_len.%s.%d" % (a, n) for a in ("legacy", "bip143") for n in CS_BOUNDS])
+    rec.require(*["boundary.output_script_len.%d" % n for n in CS_BOUNDS])
+    rec.require(*["boundary.%s_count.%d" % (w, n) for w in ("input", "output") for n in BIG_COUNTS])
+    rec.require("boundary.two_lengths_at_once", "boundary.single_output_count_at_boundary")
+    for coin in COINS:
+        net = network_for(coin)
+        legacy_like = coin not in FORK_COINS
+        # 1. script-code lengths: as given (plain), boundary AFTER the separators are removed (legacy), boundary WITH them (BIP143)
+        for n in CS_BOUNDS:
+            for variant, raw_len, seps in (("plain", n, 0), ("stripped_len_on_boundary", n + 2, 2), ("raw_len_on_boundary", n, 1)):
+                script = sized_script(rng, raw_len, seps)
+                if len(script) != raw_len or len(SH.strip_codeseparators(script)) != raw_len - seps:
+                    rec.ev("inconclusive:sized_script_not_of_promised_shape")
+                    rec.note("sized_script(%d, %d) gave %d bytes" % (raw_len, seps, len(script)))
+                    continue
+                t = gen_tx(rng)
+                idx = rng.randrange(len(t["ins"]))
+                amounts = [rng.choice([0, 1, (1 << 64) - 1, 600000000]) for _ in t["ins"]]
+                hts = rng.sample(BOUNDARY_HASH_TYPES, 4 if q else 8) + [rng.randrange(256)]
+                n_cmp = check_one(rec, coin, net, t, idx, script, "boundary.script_code." + variant, amounts, [b"\x51"] * len(t["ins"]), hts)
+                for algo in ("legacy", "segwit"):
+                    if n_cmp[algo]:
+                        name = "bip143" if (algo == "segwit" or not legacy_like) else "legacy"
+                        rec.ev("boundary.script_code_len.%s.%d" % (name, hashed_script_len(coin, algo, script)), n_cmp[algo])
+        # 2. output-script lengths, at the position SIGHASH_SINGLE commits to and elsewhere; sometimes two boundary lengths in
+        #    one transaction and a boundary-length script code as well
+        for n in CS_BOUNDS:
+            t = gen_tx(rng, rng.choice([1, 2, 3]), rng.choice([1, 2, 3]))
+            idx = rng.randrange(len(t["ins"]))
+            j = idx if (idx < len(t["outs"]) and rng.random() < 0.6) else rng.randrange(len(t["outs"]))
+            t["outs"][j]["script"] = rng.randbytes(n)
+            lens = [n]
+            if len(t["outs"]) > 1 and rng.random() < 0.5:
+                j2 = (j + 1) % len(t["outs"])
+                n2 = rng.choice(CS_BOUNDS)
+                t["outs"][j2]["script"] = rng.randbytes(n2)
+                lens.append(n2)
+            script, cls = gen_script_code(rng, 1)
+            if rng.random() < 0.4:
+                script = sized_script(rng, rng.choice(CS_BOUNDS), rng.choice([0, 1]))
+                rec.ev("boundary.two_lengths_at_once")
+            if len(lens) > 1:
+                rec.ev("boundary.two_lengths_at_once")
+            amounts = [rng.choice([0, 1, (1 << 64) - 1, 600000000]) for _ in t["ins"]]
+            hts = ([1, 3, 0x41, 0x43] if q else BOUNDARY_HASH_TYPES) + [rng.choice([0x81, 0x83, 0xc1, 0xc3])]
+            n_cmp = check_one(rec, coin, net, t, idx, script, "boundary.output_script", amounts, [b"\x51"] * len(t["ins"]), hts)
+            if n_cmp["legacy"] + n_cmp["segwit"]:
+                for m in lens:
+                    rec.ev("boundary.output_script_len.%d" % m)
+    # 3. input / output counts of 65534, 65535, 65536 (only the legacy algorithm serialises counts; SIGHASH_SINGLE writes
+    #    index + 1 as the output count, ANYONECANPAY writes 1 as the input count)
+    coins = [spec.get("count_coin") or rng.choice(["BTC", "LTC", "GRS"])]
+    for coin in coins:
+        net = network_for(coin)
+        P = b"\x76\xa9\x14" + rng.randbytes(20) + b"\x88\xac"
+        for n_in, n_out, extra in ((65534, 65536, [0x81]), (65535, 65535, [2]), (65536, 65536, [])):
+            desc = {"n_in": n_in, "n_out": n_out, "salt": rng.randrange(1 << 16)}
+            run_big(rec, coin, net, desc, n_in - 1, P, [1, 3] + extra + ([] if q else [0x83, 0x82, 0x41, 0xc3]))
+
+
+def run_big(rec, coin, net, desc, idx, script, hts, algos=("legacy",)):
+    t = big_tx(desc)
+    n_in, n_out = desc["n_in"], desc["n_out"]
+    n_cmp = check_one(rec, coin, net, t, idx, script, "boundary.counts", [1] * n_in, [b"\x51"] * n_in, hts, algos=algos, big=desc)
+    if n_cmp.get("legacy"):
+        for ht in hts:
+            base, acp = ht & 0x1f, ht & 0x80
+            rec.ev("boundary.input_count.%d" % (1 if acp else n_in))
+            if base == 3 and idx < n_out:
+                rec.ev("boundary.output_count.%d" % (idx + 1))
+                if idx + 1 in BIG_COUNTS:
+                    rec.ev("boundary.single_output_count_at_boundary")
+            elif base not in (2, 3):
+                rec.ev("boundary.output_count.%d" % n_out)
+
+
+# ---------------------------------------------------------------------------------------------------------------------
+# error-path state (class A): requests the library refuses part-way through, interleaved with judged requests on the same
+# checker, on another checker of the same coin and on a checker of another coin, all in one process
+
+FIELD_BITS = {"amount": 64, "out_value": 64, "sequence": 32, "outpoint_index": 32, "lock_time": 32, "version": 32}
+REFUSALS = ([(k, b) for k in FIELD_BITS for b in ("over", "neg", "none", "float", "str")]
+            + [("out_script", "none"), ("out_script", "str"), ("prev_hash", "none"), ("prev_hash", "str"),
+               ("unspent_unknown", "none"), ("unspents_missing", "none"),
+               ("script", "str"), ("script", "none"), ("script", "intlist"), ("script", "int"),
+               ("hash_type", "over"), ("hash_type", "neg"), ("hash_type", "none"), ("hash_type", "float"), ("hash_type", "str"),
+               ("index", "over"), ("index", "none"), ("index", "str"), ("index", "float")])
+
+
+def bad_value(kind, code):
+    if code == "over":
+        return 1 << FIELD_BITS[kind]
+    return {"neg": -1, "none": None, "float": 1.5, "str": "7"}[code]
+
+
+def perturb(tx, r):
+    """apply the transaction-side part of a refusal; -> undo()"""
+    kind, j, code = r["kind"], r.get("j", 0), r["bad"]
+    slot = None
+    if kind == "amount":
+        slot = (tx.unspents[j], "coin_value")
+    elif kind == "out_value":
+        slot = (tx.txs_out[j], "coin_value")
+    elif kind == "sequence":
+        slot = (tx.txs_in[j], "sequence")
+    elif kind == "outpoint_index":
+        slot = (tx.txs_in[j], "previous_index")
+    elif kind in ("lock_time", "version"):
+        slot = (tx, kind)
+    if slot:
+        obj, attr = slot
+        old = getattr(obj, attr)
+        setattr(obj, attr, bad_value(kind, code))
+        return lambda: setattr(obj, attr, old)
+    if kind in ("out_script", "prev_hash"):
+        obj, attr = (tx.txs_out[j], "script") if kind == "out_script" else (tx.txs_in[j], "previous_hash")
+        old = getattr(obj, attr)
+        setattr(obj, attr, None if code == "none" else "6a")
+        return lambda: setattr(obj, attr, old)
+    if kind == "unspent_unknown":
+        old = tx.unspents[j]
+        tx.unspents[j] = None
+
+        def undo():
+            tx.unspents[j] = old
+        return undo
+    if kind == "unspents_missing":
+        old_list = tx.unspents
+        tx.unspents = []
+
+        def undo2():
+            tx.unspents = old_list
+        return undo2
+    return lambda: None
+
+
+def refused_args(r, script, idx, ht, n_in):
+    kind, code = r["kind"], r["bad"]
+    if kind == "script":
+        script = {"str": script.hex(), "none": None, "intlist": list(script), "int": 5}[code]
+    elif kind == "hash_type":
+        ht = {"over": ht | (1 << 32), "neg": -1 - ht, "none": None, "float": float(ht), "str": str(ht)}[code]
+    elif kind == "index":
+        idx = {"over": n_in, "none": None, "str": str(idx), "float": float(idx)}[code]
+    elif kind == "no_forkid":
+        ht &= ~0x40
+    return script, idx, ht
+
+
+def field_snapshot(tx):
+    """every caller-visible field, without serialising (the fields may hold values no serialiser takes)"""
+    return (("version", tx.version), ("lock_time", tx.lock_time),
+            ("txs_in", tuple((i.previous_hash, i.previous_index, i.script, i.sequence, tuple(i.witness)) for i in tx.txs_in)),
+            ("txs_out", tuple((o.coin_value, o.script) for o in tx.txs_out)),
+            ("unspents", tuple(None if u is None else (u.coin_value, u.script) for u in tx.unspents)))
+
+
+def same_fields(a, b):
+    try:
+        return [n for (n, x), (_, y) in zip(a, b) if not (x == y and repr(x) == repr(y))]
+    except Exception:
+        return ["uncomparable"]
+
+
+def entry(chk, algo):
+    return chk._signature_hash if algo == "legacy" else chk._signature_for_hash_type_segwit
+
+
+def run_state_scenario(rec, S):
+    """S = {"coins": [c0, c0, c1], "txs": [t0, t1, t2], "amounts": [...], "steps": [...]}: three live checkers; each step is a
+    request that is expected to be refused (not judged) or a judged request"""
+    coins, txs_d, amounts = S["coins"], S["txs"], S["amounts"]
+    txs = [to_pycoin(network_for(c), t, a, [b"\x51"] * len(t["ins"])) for c, t, a in zip(coins, txs_d, amounts)]
+    chks = [tx.SolutionChecker(tx) for tx in txs]
+    before = [snapshot(tx) for tx in txs]
+    last_refused = None      # (object the refusal was made on, kind) while no judged answer came from each relation yet
+    for n, step in enumerate(S["steps"]):
+        on = step["on"]
+        coin, t, tx = coins[on], txs_d[on], txs[on]
+        algo, idx, ht, script = step["algo"], step["idx"], step["ht"], step["script"]
+        case = {"coin": coin, "state": dict(S, steps=S["steps"][:n + 1])}
+        if step["op"] == "refuse":
+            undo = perturb(tx, step)
+            a_script, a_idx, a_ht = refused_args(step, script, idx, ht, len(t["ins"]))
+            f0 = field_snapshot(tx)
+            st, got = observe(entry(chks[on], algo), a_script, a_idx, a_ht)
+            f1 = field_snapshot(tx)
+            undo()
+            rec.ev("refused_call.kind.%s" % step["kind"])
+            rec.ev("refused_call.%s" % ("refused" if st != "ok" else "answered"))
+            if st != "ok":
+                rec.ev("refused_call.refused.%s" % algo)
+                rec.ev("refused_call.refused.kind.%s" % step["kind"])
+                last_refused = on
+            diff = same_fields(f0, f1)
+            rec.ev("refused_call.purity_checks")
+            if diff:
+                rec.violation("sighash.%s_modifies_tx.%s" % ("refused_call" if st != "ok" else "answered_call", "+".join(diff)), case, diff, "unchanged")
+            continue
+        kind, want = expected(coin, t, idx, script, amounts[on][idx], ht, algo)
+        st, got = observe(entry(chks[on], algo), script, idx, ht)
+        rel = None
+        if last_refused is not None:
+            rel = "same_object" if on == last_refused else ("other_object" if coins[on] == coins[last_refused] else "other_network")
+            rec.ev("state.judged_after_refusal.%s" % rel)
+            rec.ev("state.judged_after_refusal.%s.%s" % (rel, algo))
+        rec.ev("state.judged")
+        rec.case(("state", coin, algo, idx, ht, script, n, before[on][0]), nontrivial=True)
+        bad = judge(coin, algo, kind, want, st, got)
+        if bad:
+            mech = bad[0]
+            if mech.endswith("digest_mismatch"):
+                mech += ".after_refused_call." + rel if rel else ".state_scenario"
+            else:
+                mech += ".after_refused_call" if rel else ".state_scenario"
+            rec.violation(mech, case, bad[1], bad[2])
+    for k, tx in enumerate(txs):
+        st, after = observe(snapshot, tx)
+        if st != "ok" or after != before[k]:
+            rec.violation("sighash.modifies_tx.state_scenario", {"coin": coins[k], "state": S}, "changed" if st == "ok" else after, "unchanged")
+
+
+def gen_query(rng, coin, t, on, algo=None):
+    algo = algo or rng.choice(["legacy", "segwit"])
+    ht = rng.choice([1, 2, 3, 0x81, 0x83, 0x41, 0x42, 0x43, 0xc1, 0xc3, rng.randrange(256)])
+    if coin in FORK_COINS and rng.random() < 0.8:
+        ht |= 0x40
+    script, _ = gen_script_code(rng, rng.choice([1, 1, 2, 3, 6, 9]))
+    return {"op": "query", "on": on, "algo": algo, "idx": rng.randrange(len(t["ins"])), "ht": ht, "script": script}
+
+
+def gen_state_scenarios(rng, coin, other_coin, n_scen):
+    todo = [(k, b, algo) for (k, b) in REFUSALS for algo in ("legacy", "segwit")] * 2
+    if coin in FORK_COINS:
+        todo += [("no_forkid", "none", "legacy")] * 4
+    rng.shuffle(todo)
+    per = -(-len(todo) // n_scen)
+    for s in range(n_scen):
+        coins = [coin, coin, other_coin]
+        txs = [gen_tx(rng, rng.choice([1, 2, 3, 3]), rng.choice([1, 2, 3, 3])) for _ in coins]
+        amounts = [[rng.choice([0, 1, (1 << 63) - 1, (1 << 64) - 1, 600000000]) for _ in t["ins"]] for t in txs]
+        steps = []
+        for kind, code, algo in todo[s * per:(s + 1) * per]:
+            on = rng.choice([0, 0, 0, 1, 2])
+            t = txs[on]
+            q = gen_query(rng, coins[on], t, on, algo)
+            if rng.random() < 0.6:
+                # a hash type that commits to every input and output, so that the offending field IS reached, and mostly at
+                # a later position of its list, so that something was written before it
+                q["ht"] = rng.choice([1, 1, 0x41, 0x41, 0x21, 0xff & ~0x9f | 1])
+            n_slots = len(t["outs"]) if kind in ("out_value", "out_script") else len(t["ins"])
+            if kind in ("amount", "unspent_unknown") and rng.random() < 0.8:
+                j = q["idx"]
+            else:
+                j = n_slots - 1 if rng.random() < 0.6 else rng.randrange(n_slots)
+            steps.append(dict(q, op="refuse", kind=kind, bad=code, j=j))
+            if rng.random() < 0.2:
+                steps.append(dict(steps[-1]))            # the same refusal twice in a row
+            order = [on] + rng.sample([x for x in (0, 1, 2) if x != on], 2)
+            for m, target in enumerate(order):
+                # the first judged request after the refusal: mostly on the same object through the same entry point
+                steps.append(gen_query(rng, coins[target], txs[target], target, algo if (m == 0 and rng.random() < 0.7) else None))
+            if rng.random() < 0.5:
+                steps.append(gen_query(rng, coins[on], t, on))
+        yield {"coins": coins, "txs": txs, "amounts": amounts, "steps": steps}
+
+
+# ------------------------------------------------------------------------------------------------------------------
+# a Solver (and the checker it owns) that is kept: a sign() that fails, the mistake corrected, sign() again. The message
+# each new signature commits to (the value handed to Generator.sign) must be the consensus digest of its input
+
+def p2pkh(h):
+    return b"\x76\xa9\x14" + h + b"\x88\xac"
+
+
+def first_blob(tx_in):
+    """the signature blob of a P2PKH scriptSig / P2WPKH witness"""
+    if tx_in.witness:
+        return bytes(tx_in.witness[0])
+    s = bytes(tx_in.script)
+    ok, _, data, _ = SH.get_op(s, 0) if s else (False, 0, b"", 0)
+    return bytes(data) if ok else b""
+
+
+def run_solver_reuse(rec, S):
+    """S = {"coin", "kind": p2pkh|p2wpkh, "tx", "amounts", "key", "refusal": {...}, "ht1", "ht2", "fresh": bool, "clear": bool}"""
+    from pycoin.solve.utils import build_hash160_lookup
+    from pycoin.ecdsa.secp256k1 import secp256k1_generator
+    coin, t, amounts = S["coin"], S["tx"], S["amounts"]
+    keys = G.Keys()
+    ki = S["key"]
+    P = p2pkh(G.hash160(keys.sec(ki)))
+    spk = P if S["kind"] == "p2pkh" else b"\x00\x14" + P[3:23]
+    algo = "legacy" if S["kind"] == "p2pkh" else "segwit"
+    tx = to_pycoin(network_for(coin), t, amounts, [spk] * len(t["ins"]))
+    lookup = build_hash160_lookup([keys.d[ki]], [secp256k1_generator])
+    solver = tx.Solver(tx)
+    signer = (lambda **kw: tx.sign(lookup, **kw)) if S["fresh"] else (lambda **kw: solver.sign(lookup, **kw))
+    undo = perturb(tx, S["refusal"])
+    f0 = field_snapshot(tx)
+    st, got = observe(signer, hash_type=S["ht1"])
+    refused = st != "ok"
+    rec.ev("solver_reuse.first_sign.%s" % ("refused" if refused else "answered"))
+    if refused and same_fields(f0, field_snapshot(tx)):
+        rec.ev("solver_reuse.refused_sign_left_partial_signatures")     # sign() fills inputs one by one: not judged
+    undo()
+    if S["clear"]:
+        for i in tx.txs_in:
+            i.script = b""
+            i.witness = []
+    signed = []
+    w = Wrapped(type(secp256k1_generator), "sign", after=lambda a, kw, r, e: signed.append((a[2] if len(a) > 2 else kw.get("val"), r)))
+    try:
+        st, got = observe(signer, hash_type=S["ht2"])
+    finally:
+        w.restore()
+    rec.ev("solver_reuse.second_sign.%s" % ("answered" if st == "ok" else "refused"))
+    if st != "ok":
+        return
+    blobs = {}
+    for i, tx_in in enumerate(tx.txs_in):
+        b = first_blob(tx_in)
+        rs = RS.parse_der_lax(b[:-1]) if len(b) > 8 else None
+        if rs:
+            blobs[rs[0]] = (i, b[-1])
+    for val, r in signed:
+        if not r or r[0] not in blobs:
+            rec.ev("solver_reuse.signature_not_located")
+            continue
+        i, ht = blobs[r[0]]
+        kind, want = expected(coin, t, i, P, amounts[i], ht, algo)
+        if kind == "refuse":
+            rec.ev("solver_reuse.signature_without_forkid")
+            continue
+        rec.ev("solver_reuse.signature_judged")
+        if refused:
+            rec.ev("solver_reuse.signature_judged_after_refused_sign")
+            rec.ev("solver_reuse.signature_judged_after_refused_sign.%s" % ("fresh_solver" if S["fresh"] else "kept_solver"))
+        rec.case(("solver", coin, S["kind"], i, ht, txser.serialize(t)), nontrivial=True)
+        if val != want:
+            rec.violation("%s.signature_commits_to_non_consensus_digest.%s%s" % (coin.lower(), S["kind"], ".after_refused_sign" if refused else ""),
+                          {"coin": coin, "solver": S}, val, want)
+
+
+def gen_solver_reuse(rng, coin):
+    kind = "p2pkh" if coin == "BCH" else rng.choice(["p2pkh", "p2wpkh"])
+    t = gen_tx(rng, rng.choice([1, 2, 3]), rng.choice([1, 2, 3]))
+    for i in t["ins"]:
+        i["script"], i["witness"] = b"", []
+    amounts = [rng.choice([1, 1000, (1 << 63) - 1, 600000000]) for _ in t["ins"]]
+    # a refusal the digest of this kind of input runs into
+    kinds = ["sequence", "outpoint_index", "lock_time", "version", "out_value", "out_script"]
+    if kind == "p2wpkh" or coin in FORK_COINS:
+        kinds += ["amount"] * 4
+    k = rng.choice(kinds)
+    code = rng.choice(["none", "str"]) if k == "out_script" else rng.choice(["over", "over", "neg", "none", "float", "str"])
+    j = rng.randrange(len(t["outs"]) if k in ("out_value", "out_script") else len(t["ins"]))
+    hts = [None, 1, 2, 3, 0x81, 0x82, 0x83]
+    ht = rng.choice(hts)
+    return {"coin": coin, "kind": kind, "tx": t, "amounts": amounts, "key": rng.randrange(6), "refusal": {"kind": k, "bad": code, "j": j},
+            "ht1": ht, "ht2": ht if rng.random() < 0.7 else rng.choice(hts), "fresh": rng.random() < 0.3, "clear": rng.random() < 0.5}
+
+
+# ------------------------------------------------------------------------------------------------------------------
+# caller-owned mutable arguments (class C): a script code handed over as bytearray / memoryview, transaction members held as
+# bytearray. Where the library answers, the answer is the digest of the bytes, the argument is left as it was, a second
+# request with the same object gives the same answer, and after the caller edits the object in place the answer follows.
+# (the statement does not say which Python types a script code may have: a refusal of these is tolerated)
+
+def run_mutable_args(rec, M):
+    """M = {"coin", "tx", "amounts", "queries": [{"algo", "idx", "ht", "script", "form", "edit": (pos, xor) | None}], "members": bool}"""
+    coin, t, amounts = M["coin"], M["tx"], M["amounts"]
+    import copy
+    t = copy.deepcopy(t)
+    tx = to_pycoin(network_for(coin), t, amounts, [b"\x51"] * len(t["ins"]))
+    if M["members"]:
+        # the transaction's own byte strings are mutable objects of the caller
+        for o in tx.txs_out:
+            o.script = bytearray(o.script)
+        for i in tx.txs_in:
+            i.script = bytearray(i.script)
+    chk = tx.SolutionChecker(tx)
+    for n, q in enumerate(M["queries"]):
+        algo, idx, ht, script = q["algo"], q["idx"], q["ht"], q["script"]
+        case = {"coin": coin, "mutable": dict(M, queries=M["queries"][:n + 1])}
+        fn = entry(chk, algo)
+        arg = bytearray(script) if q["form"] == "bytearray" else (memoryview(script) if q["form"] == "memoryview" else script)
+        members0 = [bytes(o.script) for o in tx.txs_out] + [bytes(i.script) for i in tx.txs_in]
+        ids0 = [id(o.script) for o in tx.txs_out]
+        rounds = [("first", None), ("second", None)] + ([("edited", q["edit"])] if q.get("edit") else [])
+        for label, edit in rounds:
+            if edit:
+                pos, x = edit
+                if q["form"] == "bytearray" and len(arg):
+                    arg[pos % len(arg)] ^= x                              # the caller edits its own script-code object
+                    script = bytes(arg)
+                elif M["members"] and t["outs"]:
+                    j = pos % len(t["outs"])
+                    ba = tx.txs_out[j].script
+                    if len(ba):
+                        ba[pos % len(ba)] ^= x                            # the caller edits an output script in place
+                        t["outs"][j]["script"] = bytes(ba)
+                members0 = [bytes(o.script) for o in tx.txs_out] + [bytes(i.script) for i in tx.txs_in]
+            kind, want = expected(coin, t, idx, script, amounts[idx], ht, algo)
+            st, got = observe(fn, arg, idx, ht)
+            rec.ev("mutable_arg.request")
+            if kind == "refuse" or st != "ok":
+                if kind == "refuse" and st == "ok":
+                    rec.violation("%s.accepts_hashtype_without_forkid" % coin.lower(), case, got, "refusal")
+                rec.ev("mutable_arg.refused")
+                continue
+            rec.ev("mutable_arg.answered.%s" % (q["form"] + (".tx_members_bytearray" if M["members"] else "")))
+            rec.ev("mutable_arg.answered.%s_request" % label)
+            rec.case(("mutable", coin, algo, idx, ht, script, q["form"], M["members"], label, txser.serialize(t)), nontrivial=True)
+            if got != want:
+                rec.violation("%s.%s.digest_mismatch.mutable_argument.%s_request" % (coin.lower(), algo, label), case, got, want)
+            if bytes(arg) != script:
+                rec.violation("sighash.modifies_caller_script_code", case, bytes(arg), script)
+            members1 = [bytes(o.script) for o in tx.txs_out] + [bytes(i.script) for i in tx.txs_in]
+            if members1 != members0 or ids0 != [id(o.script) for o in tx.txs_out]:
+                rec.violation("sighash.modifies_tx.mutable_members", case, "changed", "unchanged")
+
+
+def gen_mutable_args(rng, coin):
+    t = gen_tx(rng, rng.choice([1, 2, 3]), rng.choice([1, 2, 3]))
+    amounts = [rng.choice([0, 1, (1 << 64) - 1, 600000000]) for _ in t["ins"]]
+    qs = []
+    for _ in range(8):
+        script, _ = gen_script_code(rng, rng.choice([1, 2, 3, 4, 5, 6, 7, 8, 9, 10, 11]))
+        ht = rng.choice([1, 2, 3, 0x81, 0x83, 0x41, 0x43, 0xc1, 0xc2, rng.randrange(256)])
+        if coin in FORK_COINS and rng.random() < 0.9:
+            ht |= 0x40
+        qs.append({"algo": rng.choice(["legacy", "segwit"]), "idx": rng.randrange(len(t["ins"])), "ht": ht, "script": script,
+                   "form": rng.choice(["bytearray", "bytearray", "memoryview", "bytes"]),
+                   "edit": (rng.randrange(1 << 16), rng.choice([1, 0x80, 0xab ^ 0x61, 0xff])) if rng.random() < 0.7 else None})
+    return {"coin": coin, "tx": t, "amounts": amounts, "queries": qs, "members": rng.random() < 0.5}
+
+
+# ------------------------------------------------------------------------------------------------------------------
+# every producer of a transaction object x every way to get at a checker (class D, "object of feature A handed to feature B")
+
+PRODUCERS = ["from_bin", "from_hex", "parse", "with_unspents_hex", "copy"]
+CONSUMERS = ["checker", "solver_checker", "checker_early", "solver_checker_early"]
+
+
+def run_producer(rec, Q):
+    """Q = {"coin", "tx", "amounts", "producer", "consumer", "script", "hts"}"""
+    import copy
+    import io
+    coin, t, amounts = Q["coin"], Q["tx"], Q["amounts"]
+    net = network_for(coin)
+    Tx = net.tx
+    raw = txser.serialize(t)
+    spks = [b"\x51"] * len(t["ins"])
+    how = Q["producer"]
+    if how == "from_bin":
+        st, tx = observe(Tx.from_bin, raw)
+    elif how == "from_hex":
+        st, tx = observe(Tx.from_hex, raw.hex())
+    elif how == "parse":
+        st, tx = observe(Tx.parse, io.BytesIO(raw))
+    elif how == "with_unspents_hex":
+        st, tx = observe(lambda: Tx.from_hex(to_pycoin(net, t, amounts, spks).as_hex(include_unspents=True)))
+    else:
+        st, tx = observe(lambda: copy.deepcopy(to_pycoin(net, t, amounts, spks)))
+    if st != "ok":
+        rec.ev("producer.refused.%s" % how)        # parsing / serialising is not this property's subject
+        return
+    get = (lambda: tx.SolutionChecker(tx)) if Q["consumer"].startswith("checker") else (lambda: tx.Solver(tx).solution_checker)
+    early = Q["consumer"].endswith("_early")       # the checker / Solver exists before the spent outputs are supplied
+    if early:
+        st, chk = observe(get)
+    if st == "ok" and (early or how in ("from_bin", "from_hex", "parse")):
+        st, _ = observe(tx.set_unspents, [Tx.TxOut(a, s_) for a, s_ in zip(amounts, spks)])
+        if st != "ok":
+            rec.ev("producer.refused.%s" % how)
+            return
+    if not early:
+        st, chk = observe(get)
+    if st != "ok":
+        rec.ev("producer.no_checker.%s" % Q["consumer"])
+        return
+    script = Q["script"]
+    for ht in Q["hts"]:
+        for algo in ("legacy", "segwit"):
+            for idx in range(len(t["ins"])):
+                kind, want = expected(coin, t, idx, script, amounts[idx], ht, algo)
+                st, got = observe(entry(chk, algo), script, idx, ht)
+                rec.ev("producer.judged.%s" % how)
+                rec.ev("producer.judged.via_%s" % Q["consumer"])
+                rec.case(("producer", coin, how, Q["consumer"], algo, idx, ht, script, raw), nontrivial=True)
+                bad = judge(coin, algo, kind, want, st, got)
+                if bad:
+                    rec.violation(bad[0] + ".tx_%s.via_%s" % (how, Q["consumer"]), {"coin": coin, "producer": dict(Q, hts=[ht])}, bad[1], bad[2])
+
+
+def gen_producer(rng, coin, k):
+    t = gen_tx(rng)
+    script, _ = gen_script_code(rng)
+    # (a spent amount of 0 does not survive pycoin's own unspents extension: it stands for "unknown" there)
+    return {"coin": coin, "tx": t, "amounts": [rng.choice([1, 2, (1 << 64) - 1, 600000000]) for _ in t["ins"]],
+            "producer": PRODUCERS[k % len(PRODUCERS)], "consumer": CONSUMERS[(k // len(PRODUCERS) + k) % len(CONSUMERS)], "script": script,
+            "hts": [1, 2, 3, 0x41, 0x43, 0x81, 0x83, 0xc2, rng.randrange(256), rng.randrange(256)]}
+
+
+def run_state(spec, rec):
+    rng = shard_rng(spec["seed"], PROPERTY, spec["tier"], spec["shard"])
+    rec.require("refused_call.refused.legacy", "refused_call.refused.segwit", "refused_call.purity_checks")
+    rec.require(*["refused_call.kind.%s" % k for k in sorted({k for k, _ in REFUSALS} | {"no_forkid"})])
+    rec.require(*["state.judged_after_refusal.%s" % r for r in ("same_object", "other_object", "other_network")])
+    rec.require("solver_reuse.signature_judged_after_refused_sign.kept_solver", "solver_reuse.signature_judged_after_refused_sign.fresh_solver")
+    rec.require("mutable_arg.answered.bytearray", "mutable_arg.answered.memoryview", "mutable_arg.answered.bytes.tx_members_bytearray",
+                "mutable_arg.answered.second_request", "mutable_arg.answered.edited_request")
+    rec.require(*["producer.judged.%s" % h for h in PRODUCERS] + ["producer.judged.via_%s" % c for c in CONSUMERS])
+    for ci, coin in enumerate(COINS):
+        other = COINS[(ci + 1 + rng.randrange(len(COINS) - 1)) % len(COINS)]
+        for S in gen_state_scenarios(rng, coin, other, spec["n"]):
+            run_state_scenario(rec, S)
+        for _ in range(spec["n"]):
+            run_solver_reuse(rec, gen_solver_reuse(rng, coin))
+        for _ in range(spec["n"]):
+            run_mutable_args(rec, gen_mutable_args(rng, coin))
+        for k in range(spec["n"]):
+            run_producer(rec, gen_producer(rng, coin, k + ci))
+
+
+# ------------------------------------------------------------------------------------------------------------------
+# the N-th operation (class B): more than 2**16 digests of each entry point from ONE checker object
+
+LONG_SCRIPTS = [b"\x76\xa9\x14" + bytes([3]) * 20 + b"\x88\xac", b"\xab" + _FIXED_PK[0] + b"\xac", _FIXED_PK[1] + b"\xac\xab\x4c", b"\x51"]
+
+
+def long_edit(t, tx, k):
+    """deterministic in-place edit number k of the live transaction and of the reference copy"""
+    v = int.from_bytes(hashlib.sha256(b"c04-long-%d" % k).digest()[:4], "little")
+    what = k % 3
+    if what == 0:
+        j = v % len(t["ins"])
+        t["ins"][j]["sequence"] = v
+        tx.txs_in[j].sequence = v
+    elif what == 1:
+        t["lock_time"] = v
+        tx.lock_time = v
+    elif t["outs"]:
+        j = v % len(t["outs"])
+        t["outs"][j]["value"] = v
+        tx.txs_out[j].coin_value = v
+
+
+def long_run(rec, L, upto=None):
+    """L = {"coin", "tx", "amounts", "ops"}: ops digests of each entry point, all from one checker; the schedule is a function
+    of the operation number alone, so a witness (operation number) can be replayed"""
+    import copy
+    coin, amounts, ops = L["coin"], L["amounts"], L["ops"]
+    t = copy.deepcopy(L["tx"])
+    tx = to_pycoin(network_for(coin), t, amounts, [b"\x51"] * len(t["ins"]))
+    chk = tx.SolutionChecker(tx)
+    n_in = len(t["ins"])
+    fork = coin in FORK_COINS
+    total = 0
+    for algo in ("segwit", "legacy"):
+        fn = entry(chk, algo)
+        done = 0
+        for k in range(ops):
+            if upto is not None and total > upto:
+                return
+            if k % 2048 == 2047:
+                long_edit(t, tx, total)
+            idx = k % n_in
+            ht = (k * 7 + (k >> 8)) & 0xff
+            if fork and algo == "legacy" and k % 16:
+                ht |= 0x40
+            script = LONG_SCRIPTS[(k >> 3) & 3]
+            kind, want = expected(coin, t, idx, script, amounts[idx], ht, algo)
+            st, got = observe(fn, script, idx, ht)
+            done += 1
+            rec.case(("long", coin, algo, k), nontrivial=True)
+            bad = judge(coin, algo, kind, want, st, got)
+            if bad:
+                band = "at_2_16" if 65530 <= k <= 65540 else ("past_2_16" if k > 65540 else "early")
+                rec.violation(bad[0] + ".long_run." + band, {"coin": coin, "longrun": dict(L, tx=L["tx"]), "op": total, "algo": algo, "k": k}, bad[1], bad[2])
+            total += 1
+        rec.ev("long_run.digests_from_one_checker.%s" % algo, done)
+        if done > (1 << 16):
+            rec.ev("long_run.passed_2_16.%s" % algo)
+            rec.ev("long_run.passed_2_16.%s.%s" % (algo, coin))
+    st, after = observe(tx.as_bin)
+    if st != "ok" or after != txser.serialize(t):
+        rec.ev("long_run.final_serialisation_differs")
+
+
+def run_longrun(spec, rec):
+    rng = shard_rng(spec["seed"], PROPERTY, spec["tier"], spec["shard"])
+    rec.require("long_run.passed_2_16.legacy", "long_run.passed_2_16.segwit")
+    coins = spec.get("coins") or ["BTC"] + rng.sample(["LTC", "BCH", "BTG", "GRS"], 2)
+    for coin in coins:
+        t = gen_tx(rng, 3, 3)
+        for i in t["ins"]:
+            i["witness"] = []
+        amounts = [rng.choice([1, (1 << 64) - 1, 600000000]) for _ in t["ins"]]
+        long_run(rec, {"coin": coin, "tx": t, "amounts": amounts, "ops": spec["ops"]})
+
+
 def run_shard(spec, rec):
+    if spec["kind"] == "state":
+        return run_state(spec, rec)
+    if spec["kind"] == "boundary":
+        return run_boundary(spec, rec)
+    if spec["kind"] == "longrun":
+        return run_longrun(spec, rec)
     if spec["kind"] == "forkspend":
         rec.require("fork_coin_spend.without_forkid", "fork_coin_spend.with_forkid")
         rec.require(*["fork_coin_spend.%s.%s" % (c, v) for c in FORK_COINS for v in ("valid_for_reference", "invalid_for_reference")])
@@ -566,10 +1281,28 @@ def replay_case(case, rec):
             why = "hashtype_without_forkid_tolerated" if not (case["ht"] & 0x40) and got else "verdict_differs"
             rec.violation("%s.spend.%s" % (case["coin"].lower(), why), case, got, ref)
         return
+    if "state" in case:
+        return run_state_scenario(rec, case["state"])
+    if "solver" in case:
+        return run_solver_reuse(rec, case["solver"])
+    if "mutable" in case:
+        return run_mutable_args(rec, case["mutable"])
+    if "producer" in case:
+        return run_producer(rec, case["producer"])
+    if "longrun" in case:
+        return long_run(rec, case["longrun"], upto=case["op"])
+    if case.get("big"):
+        net = network_for(case["coin"])
+        d = case["big"]
+        hts = case["ht"] if isinstance(case["ht"], list) else [case["ht"]]
+        algos = tuple(case.get("algos") or [case.get("algo", "legacy")])
+        return check_one(rec, case["coin"], net, big_tx(d), case["idx"], case["script"], case.get("cls", ""), [1] * d["n_in"], [b"\x51"] * d["n_in"], hts,
+                         algos=algos, big=d)
     if "coin" in case:
         net = network_for(case["coin"])
         hts = range(256) if case.get("ht") in ("all", None) else [case["ht"]]
-        check_one(rec, case["coin"], net, case["tx"], case["idx"], case["script"], case.get("cls", ""), case["amounts"], case["spks"], hts)
+        algos = (case["algo"],) if case.get("algo") in ("legacy", "segwit") and len(hts) == 1 else ("legacy", "segwit")
+        check_one(rec, case["coin"], net, case["tx"], case["idx"], case["script"], case.get("cls", ""), case["amounts"], case["spks"], hts, algos=algos)
     else:
         from vmon.checks import c03
         c03.replay_case(case, rec)
